@@ -1186,6 +1186,19 @@ class FilePackIndex(PackIndex):
         for i in range(len(self)):
             yield self._unpack_entry(i)
 
+    def _check_tables_fit(self, tables_end: int) -> None:
+        """Refuse an index whose fan-out table declares more entries than fit.
+
+        Args:
+          tables_end: Offset just past the fixed-size tables, as computed
+            from the number of entries the fan-out table declares
+        """
+        if tables_end > self._size:
+            raise AssertionError(
+                f"{self._filename!r}: {self._size} bytes cannot hold the "
+                f"{len(self)} entries its fan-out table declares"
+            )
+
     def _read_fan_out_table(self, start_offset: int) -> list[int]:
         """Read the fan-out table from the index.
 
@@ -1329,6 +1342,7 @@ class PackIndex1(FilePackIndex):
         self._fan_out_table = self._read_fan_out_table(0)
         self.hash_size = self.object_format.oid_length
         self._entry_size = 4 + self.hash_size
+        self._check_tables_fit(0x100 * 4 + self._entry_size * len(self))
 
     def _unpack_entry(self, i: int) -> tuple[RawObjectID, int, None]:
         base_offset = (0x100 * 4) + (i * self._entry_size)
@@ -1386,6 +1400,7 @@ class PackIndex2(FilePackIndex):
         self._pack_offset_largetable_offset = self._pack_offset_table_offset + 4 * len(
             self
         )
+        self._check_tables_fit(self._pack_offset_largetable_offset)
 
     def _unpack_entry(self, i: int) -> tuple[RawObjectID, int, int]:
         return (
@@ -1504,6 +1519,7 @@ class PackIndex3(FilePackIndex):
         self._pack_offset_largetable_offset = self._pack_offset_table_offset + 4 * len(
             self
         )
+        self._check_tables_fit(self._pack_offset_largetable_offset)
 
     def _unpack_entry(self, i: int) -> tuple[RawObjectID, int, int]:
         return (
